@@ -452,6 +452,32 @@ func c02Unsupported(c *Ctx) {
 			}
 		}
 	}
+	// the destination host is resolved through the configured host table before the transport is picked
+	if sm := w.Fn("(*Proxy).sendMessage"); sm != nil {
+		r2 := "resolve-host"
+		fcs := w.callsIn(sm, "(*Proxy).findClientTransport")
+		var gi ssa.CallInstruction
+		for _, cs := range w.callsIn(sm, "(*PreConfigHostResolver).GetIp") {
+			if isParam(sm, callArg(cs.In, 0), 1) {
+				gi = cs.In
+			}
+		}
+		if gi == nil || len(fcs) != 1 {
+			c.bad(r2, "sendMessage/GetIp", w.pos(sm.Pos()), "sendMessage does not resolve its host argument through the configured host table (resolver.GetIp(host)) before picking the transport")
+		} else {
+			fc := fcs[0].In
+			b, okR := isLoadOf(callArg(gi, -1), "Proxy.resolver")
+			c.check(okR && isParam(sm, b, 0), r2, "sendMessage/resolver", w.ipos(gi), "resolution uses the proxy's configured table", "GetIp is not called on p.resolver")
+			hit := valuesUnder(sm, callArg(fc, 0), w.under(assumeAtom(errNil(gi), true)))
+			miss := valuesUnder(sm, callArg(fc, 0), w.under(assumeAtom(errNil(gi), false)))
+			c.check(allVals(hit, func(v ssa.Value) bool { return isResultOf(v, gi, 0) }), r2, "sendMessage/resolved-host-used", w.ipos(fc),
+				"the transport is picked for the resolved address", "a resolvable host is not replaced by its configured address when the transport is picked: host is "+describe(w, hit), "case: GetIp succeeded")
+			c.check(allVals(miss, func(v ssa.Value) bool { return isParam(sm, v, 1) }), r2, "sendMessage/unresolved-host-kept", w.ipos(fc),
+				"an unresolvable host is used as given", "when resolution fails the host used is "+describe(w, miss)+", expected the host argument", "case: GetIp failed")
+			c.check(isParam(sm, callArg(fc, 1), 2) && isParam(sm, callArg(fc, 2), 3), r2, "sendMessage/port-transport", w.ipos(fc), "port and transport are passed through unchanged", "port/transport given to findClientTransport are not sendMessage's own port and transport arguments")
+		}
+		c.floor(r2, 4)
+	}
 	// the table itself: only udp and tcp
 	if g, ok := w.Main.Members["SupportedProtocol"].(*ssa.Global); ok {
 		_ = g
